@@ -34,6 +34,10 @@ def driver_line(op: dict, impl_resp: str) -> str | None:
                 f"reset={op.get('reset', 0)} clear={op.get('clear', 1)} f={op.get('f', 0)} m={op.get('m', 1)} dir={op.get('dir', '-')} cfg={op.get('cfg', 0)}")
     if o in ("basedir", "configdump", "mktmp"):
         return None
+    if o == "cpdir":
+        return f"cpdir src={op['src']} dst={op['dst']}"
+    if o == "rmdir":
+        return f"rmdir dir={op['dir']}"
     if o in ("construct", "pconstruct"):
         return "validate " + op["model_args"]
     if o == "ls":
